@@ -4,6 +4,7 @@ import (
 	"bytes"
 	"encoding/binary"
 	"fmt"
+	"runtime"
 	"strings"
 	"sync"
 	"sync/atomic"
@@ -250,6 +251,7 @@ func TestVP_C01_ConcurrentReplay(t *testing.T) {
 					msg = append([]byte(nil), msg...)
 					ready.Add(1)
 					for ready.Load() < int64(total) {
+						runtime.Gosched() // yield: more spinners than cores must not starve the late ones
 					}
 					out, err := rcv.Decrypt(msg)
 					if err != nil {
